@@ -212,6 +212,29 @@ def unit_registry(ctx):
         tagged, x, y = ps[0].value
         ok = tagged[0] == "MAP" and tagged[1] == "!NaiveThresholdMatching" and isinstance(y, SObj) and y.cls is x.cls and all(same_value(x.attrs[k], y.attrs[k]) for k in x.attrs)
     ctx.oblige("utils.config.SupportsConfig.to_yaml/from_yaml/post(mapping tagged with the class name; from_yaml = cls(**mapping))", [], z3.BoolVal(bool(ok)), func=CFG + "SupportsConfig.to_yaml")
+    # from_yaml hands EVERY entry of the mapping to the constructor, whatever its value (symbolic threshold / flag: zero, False included)
+    thr, many = z3.Real("cfg_thr"), z3.Bool("cfg_many")
+
+    def t3():
+        cls = eng.resolve(IM + "NaiveThresholdMatching")
+
+        class Con:
+            def construct_mapping(self_, node, deep=False):
+                return dict(node)
+        y = eng.call(eng.getattr(cls, "from_yaml"), [Con(), {"matching_metric": metric(eng, "DSC"), "matching_threshold": SymReal(thr), "allow_many_to_one": SymBool(many)}], {})
+        return y
+    for pi, p in enumerate(eng.run(t3, lambda e: ([], {}))):
+        nm = "utils.config.SupportsConfig.from_yaml[symbolic values]"
+        if p.kind != "return":
+            ctx.oblige(f"{nm}/no-exception#p{pi}", p.pc, z3.BoolVal(False), func=CFG + "SupportsConfig.from_yaml", replay="c19.components")
+            continue
+        y = p.value
+        a = y.attrs
+        tv, mv, mm_ = a.get("_matching_threshold"), a.get("_allow_many_to_one"), a.get("_matching_metric")
+        ok3 = isinstance(tv, (Sym, int, float)) and isinstance(mv, (Sym, bool)) and isinstance(mm_, EnumMember) and mm_._name == "DSC"
+        ctx.oblige(f"{nm}/post(every entry reaches the constructor unchanged, falsy values included)#p{pi}", p.pc,
+                   z3.And(to_term(tv, "real") == thr, to_term(mv) == many) if ok3 else z3.BoolVal(False), func=CFG + "SupportsConfig.from_yaml", replay="c19.components",
+                   info={"structural": True})
 
 
 def unit_shipped(ctx):
